@@ -12,7 +12,7 @@ CHECKS = {
         text="Bounded model checking of Quantity.__eq__/__ne__/compare/__hash__ run on symbolic magnitudes: for every explored unit pair/triple the "
         "verdict holds for all rational magnitudes (z3 unsat on every path), against an affine-map oracle from an independent reader of the definition files. "
         "Universal over magnitudes; unit pairs are a structural cover plus seeded draws (all temperature-like pairs exhaustively).",
-        note="Exact rational arithmetic only (Q twin of Fraction); NaN, floats, arrays outside. Trusts z3 unsat and the REF reader (self-checked against pint).",
+        note="Solver verdicts in exact rational arithmetic (Q twin of Fraction); NaN/inf magnitudes, float arrays and same-object comparisons are decided by a concrete companion family (H05.e, float registry, enumerated values - not solver-universal). Trusts z3 unsat and the REF reader (self-checked against pint).",
         design="4/C05",
     ),
 }
@@ -30,14 +30,14 @@ CHECKS.update(
         text="For every unit spelling of the bundled files, prefix x unit strings, same-dimension pairs and generated definition files with symbolic scales, "
         "the real conversion code is run on a symbolic magnitude and the result is proved (z3) equal to x times the exact factor from an independent reader, for every rational x "
         "(and every non-zero scale/prefix value in generated registries); identity, round trip, swapped cache key and path independence included.",
-        note="Exact rational arithmetic only; the float few-ulp clause and Decimal are outside; units with non-integer powers in their factor are compared by root units only.",
+        note="Solver verdicts in exact rational arithmetic; float and Decimal registries are sampled by a concrete companion family (H02.f: few-ulp / type clauses on enumerated values, not solver-universal); units with non-integer powers in their factor are compared by root units only.",
         design="4/C02",
     ),
     C03=dict(
         text="Each Quantity operator of the real code is run on symbolic magnitudes in two unit expressions of the same operands; the results are proved physically equal for all magnitudes "
         "(root magnitude, dimensionality, truth value or exception class). Reflected and in-place (scalar and object-array) forms are proved equal to the plain forms; admissibility of a bare "
         "symbolic number under + and - is proved to be exactly 'dimensionless or zero'.",
-        note="Exact rational arithmetic; unit tuples are a cover list plus seeded draws; integer powers in [-3,3]; int/float/Decimal magnitudes, NaN and float arrays outside.",
+        note="Exact rational arithmetic; unit tuples are a cover list plus seeded draws; integer powers in [-3,3]; int/float/Decimal magnitudes only through the concrete companion family H03.d (enumerated values); NaN outside.",
         design="4/C03",
     ),
     C04=dict(
@@ -116,13 +116,13 @@ CHECKS.update(
     C15=dict(
         text="to_root_units/to_base_units/to_reduced_units/to_compact/to_preferred and their in-place twins run on a symbolic magnitude: same dimensionality and equal root magnitude proved for all magnitudes; "
         "in-place == functional; to_compact's [1,1000) clause proved over 72 decades under an ideal log10 contract; reduced units checked for mergeable pairs against the independent reader; auto-reduce / auto-preferred registries keep the value.",
-        note="math shim inside qto (ideal log10, floor/ceil via ToInt) is a stub and part of the claim; MIP search runs concretely; NaN/inf, uncertain magnitudes outside.",
+        note="math shim inside qto (ideal log10, floor/ceil via ToInt) is a stub and part of the claim; MIP search runs concretely; float/int magnitudes in offset and logarithmic units through a concrete companion family (in-place == functional); uncertain magnitudes under the affine ufloat model; NaN/inf outside.",
         design="4/C15",
     ),
     C16=dict(
         text="About 65 NumPy functions, ufuncs and ndarray methods applied through pint to object-dtype arrays of symbolic numbers: the result with inputs in (u, v) is proved equal element-wise, for all element values, to the result with "
         "the inputs re-expressed in (u', v') (comparisons inside NumPy fork symbolically); the output unit is compared with the implied-unit table; incompatible inputs must raise; inputs must be unchanged; in-place add, item assignment and copyto convert into the target's units.",
-        note="Only functions that accept object dtype (roughly half of the handled table); float-dtype kernels (trigonometry, exp/log, isclose, interp, sqrt/std ...) outside; arrays of length 3.",
+        note="Solver verdicts only for functions that accept object dtype (roughly half of the handled table), arrays of length 3; float-dtype kernels (interp, nan_to_num, clip forms, isclose, reductions with where=, dot/cross with offset operands, operators on offset/delta arrays) are decided on exactly representable concrete values by H16.f (not solver-universal); trigonometry/exp/log accuracy outside.",
         design="4/C16",
     ),
     C17=dict(
@@ -135,20 +135,20 @@ CHECKS.update(
         text="copy / deepcopy / pickle protocols 0-5 / to_tuple-from_tuple of Quantity, Unit, UnitsContainer and ParserHelper with a symbolic magnitude (pickled by placeholder id) and solver-chosen exponents: equal for all magnitudes, attached to a fresh "
         "application registry and usable there (prefixed units not yet registered), not mixing with the source registry; every operator and ordering between objects of two registries must raise ValueError; a deep-copied registry "
         "and its source are evolved with symbolic definitions and proved independent; the lazy application registry converts like an explicit one; exception classes round-trip (concrete).",
-        note="Measurement pickling and ndarray magnitudes outside; exponents in [-2,2] realised.",
+        note="ndarray magnitudes outside; Measurement round trips, exceptions and the lazy registry are concrete companion families; exponents in [-2,2] realised.",
         design="4/C18",
     ),
     C19=dict(
         text="Measurement construction, accessors, conversion and arithmetic of the real code with symbolic nominal value and standard deviation, with ufloat replaced by an affine model: all constructor forms report back "
         "(value, error, rel); a negative error is rejected exactly when e < 0 (solver-partitioned); conversion maps the nominal value like a plain quantity and scales the standard deviation by |slope| (offset units included), rel invariant under "
         "multiplicative conversion; scalar multiples, sums and differences of independent measurements follow the unit rules with first-order propagation; '+/-' and '±' texts with symbolic literals parse to that measurement.",
-        note="PARTIAL, UNDER A STUB: the real uncertainties package (correlations, non-linear propagation, formatting, 8.0(4) notation) is outside; counterexamples are replayed with the real package on the float registry with a tolerance.",
+        note="PARTIAL, UNDER A STUB: solver verdicts hold under the affine ufloat model; the real uncertainties package enters only through concrete companion families (correlation identities H19.c, format round trips H19.e, parenthesised and exponent-suffixed notations) and the replay of counterexamples on the float registry with a tolerance; non-linear propagation outside.",
         design="4/C19",
     ),
     C20=dict(
         text="Every entry of an independently written table of standard values (about 230 units/constants, 32 prefixes, 5 temperature scales) is compared with the real registry "
         "for all magnitudes x (linear/affine map proved by z3), plus symbol and dimensionality. The solver's role is small; the strength is the independent table.",
-        note="Trusts the transcription of the standards in pvlib/ref/stdtable.py; exact arithmetic; float registry clause outside.",
+        note="Trusts the transcription of the standards in pvlib/ref/stdtable.py; exact arithmetic for the solver verdicts; the float registry is compared with the same table to 1e-14 relative by a concrete companion family.",
         design="4/C20",
     ),
 )
